@@ -606,7 +606,15 @@ def run_call(base, call, env=None, entry=None, snap=True, capture_settings=False
             captured = []
 
             def recorder(input_file, settings):
-                captured.append((input_file, settings))
+                import copy as _copy
+                snap = _copy.copy(settings)
+                try:
+                    snap.input = _copy.copy(settings.input)
+                    # what this very call would see: a one-shot iterator is consumed here, as document() would consume it
+                    snap.input.exclude_filters = list(settings.input.exclude_filters)
+                except Exception:
+                    pass
+                captured.append((input_file, snap))
             cminx.document = recorder
             res.captured = captured
         sim.install()
